@@ -84,6 +84,10 @@ def write_file(path, e):
                 pos += n
         else:
             os.ftruncate(fd, size)
+            for off, ln in e.get("falloc") or []:
+                # preallocated (unwritten) ranges: they read as zeros but are extents of their own, logically
+                # adjacent to the written data around them
+                os.posix_fallocate(fd, off, ln)
             for off, ln in segs:
                 p = off
                 while p < off + ln:
